@@ -457,3 +457,71 @@ package iavl
 //@   requires tree != nil && tree.ndb != nil && tree.ndb.db != nil && tree.ndb.latestVersion > 0
 //@   ensures [cached] err == nil && v == old(tree.ndb.latestVersion)
 //@   modifies *
+
+// ---------------------------------------------------------------- tree-level API (C01): the working tree as a sorted map
+//
+// tview(root): the abstract tree of a root pointer (nil = empty); the model of
+// the working state is lookup(tview(tree.root), ·).
+
+//@ func (*ImmutableTree).Size(t) (n)
+//@   props C01 C11
+//@   requires t != nil && (t.root != nil ==> valid(t.root))
+//@   ensures n == siz(tview(t.root))
+
+//@ func (*ImmutableTree).Height(t) (h)
+//@   props C01 C11
+//@   requires t != nil && (t.root != nil ==> valid(t.root))
+//@   ensures h == hgt(tview(t.root))
+
+//@ func (*ImmutableTree).GetWithIndex(t, key) (index, value, err)
+//@   props C01 C11
+//@   requires t != nil && (t.root != nil ==> t.ndb != nil && valid(t.root) && siz(view(t.root)) <= 144115188075855872)
+//@   ensures [rank] err == nil ==> index == rank(old(tview(t.root)), ord(key))
+//@   ensures [present] err == nil ==> (value != nil) == has(old(tview(t.root)), ord(key))
+//@   ensures [value] err == nil && value != nil ==> cntOf(value) == lookup(old(tview(t.root)), ord(key))
+//@   ensures [frame] nframe(old(heap(N)), heap(N), old(na))
+//@   modifies nodeDB.*[*], Statistics.*[*]
+
+//@ func (*ImmutableTree).GetByIndex(t, index) (key, value, err)
+//@   props C01 C11
+//@   requires t != nil && (t.root != nil ==> t.ndb != nil && valid(t.root) && siz(view(t.root)) <= 144115188075855872)
+//@   ensures [inrange] err == nil ==> (value != nil) == isLeaf(nth(old(tview(t.root)), index))
+//@   ensures [leaf] err == nil && value != nil ==> cntOf(key) == l_key(nth(old(tview(t.root)), index)) && cntOf(value) == l_val(nth(old(tview(t.root)), index))
+//@   ensures [frame] nframe(old(heap(N)), heap(N), old(na))
+//@   modifies nodeDB.*[*], Statistics.*[*]
+
+//@ func (*MutableTree).set(tree, key, value) (updated, err)
+//@   props C01 C02 C11
+//@   requires tree != nil && tree.ImmutableTree != nil && tree.ImmutableTree.ndb != nil
+//@   requires tree.unsavedFastNodeAdditions != nil && tree.unsavedFastNodeRemovals != nil && tree.unsavedFastNodeAdditions != tree.unsavedFastNodeRemovals
+//@   requires tree.ImmutableTree.root != nil ==> valid(tree.ImmutableTree.root) && hgt(view(tree.ImmutableTree.root)) <= 95 && siz(view(tree.ImmutableTree.root)) <= 144115188075855872
+//@   ensures [nilvalue] value == nil ==> err != nil && tree.ImmutableTree.root == old(tree.ImmutableTree.root) && smhas[tree.unsavedFastNodeAdditions] == old(smhas[tree.unsavedFastNodeAdditions]) && smhas[tree.unsavedFastNodeRemovals] == old(smhas[tree.unsavedFastNodeRemovals])
+//@   ensures [valid] err == nil ==> tree.ImmutableTree.root != nil && valid(tree.ImmutableTree.root)
+//@   ensures [model] err == nil ==> view(tree.ImmutableTree.root) == ins(old(tview(tree.ImmutableTree.root)), cntOf(key), cntOf(value))
+//@   ensures [updated] err == nil ==> updated == has(old(tview(tree.ImmutableTree.root)), ord(key))
+//@   ensures [onerror] err != nil && value != nil ==> true
+//@   ensures [frame] nframe(old(heap(N)), heap(N), old(na))
+//@   modifies tree.ImmutableTree.root, Node.leftNode[*], Node.rightNode[*], inptr[tree.ImmutableTree.root], smhas[tree.unsavedFastNodeAdditions], smval[tree.unsavedFastNodeAdditions], smhas[tree.unsavedFastNodeRemovals], nodeDB.*[*], Statistics.*[*]
+
+//@ func (*MutableTree).Remove(tree, key) (value, removed, err)
+//@   props C01 C02 C11
+//@   requires tree != nil && tree.ImmutableTree != nil && tree.ImmutableTree.ndb != nil && tree.logger != nil
+//@   requires tree.unsavedFastNodeAdditions != nil && tree.unsavedFastNodeRemovals != nil && tree.unsavedFastNodeAdditions != tree.unsavedFastNodeRemovals
+//@   requires tree.ImmutableTree.root != nil ==> valid(tree.ImmutableTree.root) && hgt(view(tree.ImmutableTree.root)) <= 95 && siz(view(tree.ImmutableTree.root)) <= 144115188075855872
+//@   ensures [removed] err == nil ==> removed == d_removed(del(old(tview(tree.ImmutableTree.root)), ord(key)))
+//@   ensures [absent] err == nil && !removed ==> tree.ImmutableTree.root == old(tree.ImmutableTree.root) && value == nil
+//@   ensures [model] err == nil && removed ==> tview(tree.ImmutableTree.root) == d_tree(del(old(tview(tree.ImmutableTree.root)), ord(key))) && (tree.ImmutableTree.root != nil ==> valid(tree.ImmutableTree.root))
+//@   ensures [value] err == nil && removed ==> cntOf(value) == d_val(del(old(tview(tree.ImmutableTree.root)), ord(key)))
+//@   ensures [frame] nframe(old(heap(N)), heap(N), old(na))
+//@   modifies tree.ImmutableTree.root, Node.leftNode[*], Node.rightNode[*], smhas[tree.unsavedFastNodeAdditions], smhas[tree.unsavedFastNodeRemovals], smval[tree.unsavedFastNodeRemovals], nodeDB.*[*], Statistics.*[*]
+
+// Rollback: the working tree becomes the last saved tree again and BOTH
+// uncommitted overlays are emptied.
+//@ func (*MutableTree).Rollback(tree)
+//@   props C01 C09 C07
+//@   requires tree != nil && tree.ImmutableTree != nil && tree.lastSaved != nil
+//@   ensures [tree] tree.ImmutableTree != nil && fresh(tree.ImmutableTree) && tree.ImmutableTree.root == ite(old(tree.ImmutableTree.version) > 0, old(tree.lastSaved.root), nil)
+//@   ensures [version] tree.ImmutableTree.version == ite(old(tree.ImmutableTree.version) > 0, old(tree.lastSaved.version), 0)
+//@   ensures [overlay] !tree.skipFastStorageUpgrade ==> tree.unsavedFastNodeAdditions != nil && tree.unsavedFastNodeRemovals != nil && smhas[tree.unsavedFastNodeAdditions] == emptyKeys && smhas[tree.unsavedFastNodeRemovals] == emptyKeys
+//@   ensures [frame] nframe(old(heap(N)), heap(N), old(na))
+//@   modifies tree.ImmutableTree, tree.unsavedFastNodeAdditions, tree.unsavedFastNodeRemovals
